@@ -116,6 +116,7 @@ func init() {
 			ruleAtomicFields(c)
 			ruleOverrideOnlyRead(c)
 			ruleInternLookup(c)
+			ruleInternKey(c)
 			ruleNullCodecs(c)
 			ruleNullValue(c)
 		},
